@@ -11,9 +11,15 @@
 
   * `preFp_layout_arch` / `walk_layout_fp_generated_arch` — frame-pointer chains on x86, x86-64
     (not Windows), ARM on iOS, ARM64 (both context layouts).
+  * `preCfi_layout` / `walk_layout_cfi_generated` — canonical STACK CFI chains on all seven context
+    kinds / modes, incl. the leaf first frame and stacks that END with the outermost return-address
+    slot; the stack part of `Pre` is proved, the side condition `gcfiSide` (which record covers
+    which lookup address: module and CFI range tables) stays a hypothesis.
 -/
 import MdProofs.C04
 import MdProofs.Lemmas.WalkGenFp
+import MdProofs.Lemmas.WalkGenCfi
+import MdProofs.C04Cfi
 namespace MdModel.Walk
 open MdModel
 
@@ -81,5 +87,65 @@ example : preFp .arm .ios 0 (wordsMemP 4 0x8000 (gfpWords 4 0x8000 0 3 []))
     (pAddr 4 0x8000 0) (pAddr 4 0x8000 0) (gfpChain 4 0x8000 0 []) = true :=
   preFp_layout_arch .arm rfl .ios (by decide) (by decide) 0 0x8000 0 0 3 [] (by decide) (by decide) (by decide)
     (fun h => by rcases h with h | h <;> cases h) (by decide)
+
+/-- "described by STACK CFI": the canonical STACK CFI generator's stacks satisfy `preCfi`, for ALL
+    its parameters (stack base, word position of the stack pointer, per frame its size in words,
+    whether the record saves the frame pointer, the return address and the saved frame pointer;
+    `tail` zero words behind the last frame — `tail = 0`: the stack ENDS with the outermost
+    return-address slot), on every context kind / mode — given `gcfiSide`: the record covering each
+    lookup address is the canonical one for the frame's size (the leaf rule for a frame of size 0),
+    no record covers the outermost lookup address -/
+theorem preCfi_layout (w : World) (a : Arch) (os : Os) (mask base s0 tail : Nat) (frames : List CfiFr) (ctx : Ctx)
+    (hv : ctx.valid = none) (hsp : ctx.sp = pAddr a.ptr base s0)
+    (hbase : 16 < base) (htop : base + a.ptr * (gcfiWords s0 tail frames).length ≤ a.regMax)
+    (hin : s0 < (gcfiWords s0 tail frames).length)
+    (hfp : stripOf a mask (ctx.raw a a.fpName) = ctx.raw a a.fpName)
+    (hside : gcfiSide w a ctx.ip true frames = true) (hok : gcfiFramesOk a mask frames = true)
+    (hlr : ∀ c rest, frames = c :: rest → c.n = 0 → ctx.raw a (if a.isMips then "ra" else "lr") = c.ret)
+    (hend : tail = 0 ∨ gcfiLastFp (ctx.raw a a.fpName) frames = 0) :
+    preCfi w a os mask (wordsMemP a.ptr base (gcfiWords s0 tail frames)) ctx
+      (gcfiChain a.ptr base s0 (ctx.raw a a.fpName) frames) = true := by
+  simp only [preCfi, hv, Option.isNone_none, Bool.true_and, hsp]
+  exact preCfi_gen_aux w a os mask base tail (gcfiWords s0 tail frames) hbase htop frames s0 _ ctx.ip _ true
+    (List.replicate s0 0) (by simp only [gcfiWords, List.append_assoc]) (by simp) hfp hside hok
+    (fun c rest h hn => ⟨hlr c rest h hn, hin⟩) hend
+
+/-- **every canonical STACK CFI stack the generator's layout function produces is walked to its
+    chain** (all seven context kinds / modes, every OS), under the side condition `gcfiSide` on the
+    module list and symbol records -/
+theorem walk_layout_cfi_generated (a : Arch) (os : Os) (w : World) (base s0 tail : Nat) (frames : List CfiFr)
+    (ctx : Ctx) (heff : effArch a ctx = a)
+    (hv : ctx.valid = none) (hsp : ctx.sp = pAddr a.ptr base s0)
+    (hbase : 16 < base) (htop : base + a.ptr * (gcfiWords s0 tail frames).length ≤ a.regMax)
+    (hin : s0 < (gcfiWords s0 tail frames).length)
+    (hfp : stripOf a (mkEnv a os w (wordsMemP a.ptr base (gcfiWords s0 tail frames))).mask (ctx.raw a a.fpName) =
+      ctx.raw a a.fpName)
+    (hside : gcfiSide w a ctx.ip true frames = true)
+    (hok : gcfiFramesOk a (mkEnv a os w (wordsMemP a.ptr base (gcfiWords s0 tail frames))).mask frames = true)
+    (hlr : ∀ c rest, frames = c :: rest → c.n = 0 → ctx.raw a (if a.isMips then "ra" else "lr") = c.ret)
+    (hend : tail = 0 ∨ gcfiLastFp (ctx.raw a a.fpName) frames = 0) :
+    walk (mkEnv a os w (wordsMemP a.ptr base (gcfiWords s0 tail frames)))
+        (some (wordsMemP a.ptr base (gcfiWords s0 tail frames))) ctx =
+      symbolise (mkEnv a os w (wordsMemP a.ptr base (gcfiWords s0 tail frames))) (Frame.ofCtx ctx .context) ::
+        expectedCfi (mkEnv a os w (wordsMemP a.ptr base (gcfiWords s0 tail frames))) w a (Frame.ofCtx ctx .context)
+          (gcfiChain a.ptr base s0 (ctx.raw a a.fpName) frames) := by
+  have hp := ptr_pos a
+  have h64 := regMax_le_u64 a
+  have hm : (wordsMemP a.ptr base (gcfiWords s0 tail frames)).range?.isSome = true :=
+    wordsMemP_range a.ptr base _ hp (by omega) (by omega)
+  have hsp' : ctx.sp ≤ a.regMax := by
+    have : a.ptr * s0 ≤ a.ptr * (gcfiWords s0 tail frames).length := Nat.mul_le_mul_left _ (Nat.le_of_lt hin)
+    rw [hsp]; simp only [pAddr]; omega
+  refine walk_layout_cfi a os w _ ctx _ heff hsp' ?_
+  simp only [Pre, hm, Bool.true_and]
+  exact preCfi_layout w a os _ base s0 tail frames ctx hv hsp hbase htop hin hfp hside hok hlr hend
+
+-- non-vacuity: a two-frame x86-64 stack (3 words saving rbp, then 2 words), ending with the outermost
+-- return-address slot, spelled out
+example : gcfiWords 1 0 [{ n := 3, saves := true, ret := 0x400120, fpv := 0 }, { n := 2, saves := false, ret := 0x400500, fpv := 0 }] =
+    [0, 0, 0, 0x400120, 0, 0x400500] := by decide
+example : (gcfiChain 8 0x8000 1 0x9000 [{ n := 3, saves := true, ret := 0x400120, fpv := 0 },
+      { n := 2, saves := false, ret := 0x400500, fpv := 0 }]).map (fun e => (e.ret, e.sp, e.fp)) =
+    [(0x400120, 0x8020, some 0), (0x400500, 0x8030, some 0)] := by decide
 
 end MdModel.Walk
